@@ -94,6 +94,12 @@ class LinkSym:
     def norm(self, st, t):
         """apply the pre-state well-formedness axioms"""
         if isinstance(t, tuple) and t[0] == 'init':
+            if t[1] == SEG and t[2] == 'last' and getattr(self, 'alias_last', None) is not None:
+                # window mode: m_last is the k-th slot of the list (a line end inside the stream), not its end
+                a = ('init', SEG, 'first')
+                for _ in range(self.alias_last):
+                    a = ('init', a, 'next')
+                return self.norm(st, a)
             o = self.norm(st, t[1])
             f = t[2]
             if isinstance(o, tuple) and o[0] == 'init' and o[1] != SEG:
@@ -101,8 +107,8 @@ class LinkSym:
                 if inv.get(o[2]) == f and not self._maybe_deleted(st, o[1]):
                     return self.norm(st, o[1])
             if isinstance(o, tuple) and o[0] == 'init' and o[1] == SEG:
-                if (o[2], f) in (('first', 'prev'), ('last', 'next')):
-                    return NULL
+                if (o[2], f) in (('first', 'prev'), ('last', 'next')) and not getattr(self, 'window', False):
+                    return NULL         # (not assumed in window mode: justify narrows m_first/m_last to a line inside the list)
             if o[0] == 'fresh':
                 return NULL if o[1] < 1000 else ('garbage', o)
             return ('init', o, f)
@@ -193,7 +199,7 @@ class LinkSym:
                 raise AnalysisBroken('%s: too many paths for the link-heap analysis' % fn.q)
             visits = dict(visits)
             visits[b] = visits.get(b, 0) + 1
-            if visits[b] > 2:
+            if visits[b] > getattr(self, "max_visits", 2):
                 return                      # deeper loop iterations are not explored (not a complete path)
             blk = fn.blocks[b]
             done = False
@@ -673,6 +679,44 @@ class LinkSym:
         final = {}
         for obj, field, v, loc in st.order:
             final[(obj, field)] = (v, loc)
+        if 'R9' in rules and st.order:
+            # R9: every slot whose links the path rewrote is still on the forward chain that starts at the post-state head
+            # (nothing is dropped from the stream, and the chain has no cycle)
+            touched = []
+            for obj, field, v, loc in st.order:
+                o = self.norm(st, obj)
+                if obj != SEG and o != NULL and o not in touched and o not in st.off and not (isinstance(o, tuple) and o[0] == 'fresh'):
+                    touched.append(o)
+            head = self.norm(st, self.read(st, SEG, 'first'))
+            # the window may start inside the list (segment.first is then not the head of what was relinked): walk back over the
+            # post-state prev links to the earliest slot the path knows about
+            back_seen = []
+            for _ in range(64):
+                if head == NULL or self.is_null(st, head) is True:
+                    break
+                pv = self.norm(st, self.read(st, head, 'prev'))
+                if pv == NULL or self.is_null(st, pv) is True or any(self.same(st, pv, x) for x in back_seen):
+                    break
+                back_seen.append(head)
+                head = pv
+                if not any(self.same(st, pv, o) for o in touched):
+                    break
+            seen, chain, cur, cyc = [], [], head, False
+            for _ in range(64):
+                if cur == NULL or self.is_null(st, cur) is True or cur is None:
+                    break
+                if any(self.same(st, cur, x) for x in chain):
+                    cyc = True
+                    break
+                chain.append(cur)
+                cur = self.norm(st, self.read(st, cur, 'next'))
+            if cyc:
+                out.append(('R9', chain[-1], 'next', cur, st.order[-1][3], 'following next links from segment.first runs into a cycle at %s: walking the stream never ends' % show(cur)))
+            else:
+                lost = [o for o in touched if not any(self.same(st, o, x) for x in chain)]
+                if lost:
+                    out.append(('R9', lost[0], 'next', NULL, st.order[-1][3], '%s was relinked but is no longer reachable from segment.first by next links (%d slots on the chain): '
+                                'the slot has dropped out of the stream' % (show(lost[0]), len(chain))))
         for (obj, field), (v, loc) in final.items():
             # the LAST write to the cell is what counts
             if st.heap.get((obj, field)) != v:
@@ -680,6 +724,16 @@ class LinkSym:
             if obj in st.off or any(self.same(st, obj, o) for o in st.off) or obj in exempt_objs:
                 continue
             vnull = self.is_null(st, v)
+            if obj != SEG and 'R8' in rules and obj[0] != 'fresh':
+                # R8: the slot this link pointed to BEFORE (pre-state) must not be left pointing back at obj
+                inv8 = 'prev' if field == 'next' else 'next'
+                old = self.norm(st, ('init', obj, field))
+                if old != NULL and self.is_null(st, old) is not True and not self.same(st, old, v) and old not in st.off \
+                        and not any(self.same(st, old, o) for o in st.off) and not (isinstance(old, tuple) and old[0] == 'fresh'):
+                    back = self.read(st, old, inv8)
+                    if self.same(st, back, obj):
+                        out.append(('R8', obj, field, v, loc, '%s.%s is redirected from %s to %s, but %s.%s still points back at %s: the old neighbour is left '
+                                    'half-linked (it is reachable from one side only)' % (show(obj), field, show(old), show(v), show(old), inv8, show(obj))))
             if obj != SEG:
                 inv = 'prev' if field == 'next' else 'next'
                 if vnull is True:
